@@ -206,6 +206,7 @@ theorem remote_deploy_rejected_unchanged (st : State) (op : Op) (e : Err) (h : (
       · rename_i hc; rw [if_pos hc]
       · cases h
     · rfl
+  case upgradeMigrate au => split <;> rfl
   all_goals
     first
       | exact wrapEv_err _ _ _ h
